@@ -29,6 +29,15 @@ def prefilter_conservative(db, ctx):
             ctx.floors['R3.5-' + k] = ctx.floors.pop(k)
 
 
+def _deref_deep(e):
+    """e with every reference / dereference wrapper removed (comparison operands are taken by reference)."""
+    if not isinstance(e, tuple):
+        return e
+    if e and e[0] in ('ref', 'deref') and len(e) == 2:
+        return _deref_deep(e[1])
+    return tuple(_deref_deep(x) for x in e)
+
+
 def _run(db, ctx):
     ctx.rule('R3.1', 'the 8-bit pruning bound is only ever an under-estimate: scale(exact score); 8-bit tests are inclusive')
     ctx.rule('R3.2', 'R2.1/R2.2/R2.3/R2.5 on Scanner::max')
@@ -74,6 +83,51 @@ def _run(db, ctx):
                 natural = cmp_ is not None and (m(('call~', ('Option::unwrap', 'Option::expect'), (('call~', '::partial_cmp', (x_, y_)),)), cmp_) is not None or
                                                 m(('call~', ('Option::unwrap', 'Option::expect'), (('call~', '::partial_cmp', (('fld', x_, 'score'), ('fld', y_, 'score'))),)), cmp_) is not None)
                 ok_seed = keep and natural
+    if not ok_seed and not seed:
+        # loop form of the same seeding: `best = None; for hit in take(self.hits) { if !(hit.score >= threshold) { continue }; best = match best {
+        # None => Some(hit), Some(cur) => match cur.score.partial_cmp(&hit.score).unwrap() { Greater => Some(cur), _ => Some(hit) } } }`
+        def emptied_hits(src):
+            e_ = m(('call~', 'mem::take', ('$h',)), src) or m(('call~', 'Vec::drain', ('$h', '_')), src) or \
+                m(('call~', 'mem::replace', ('$h', ('call~', ('Vec::new', 'Default::default'), ()))), src)
+            return e_ is not None and S.self_field(e_['$h'], 'hits')
+        is_opt = lambda v_, k_: v_[0] == 'agg' and isinstance(v_[1], tuple) and v_[1][0] == 'adt' and v_[1][1].endswith('option::Option') and len(v_[2]) == k_
+        inits = [d for d in upd if not any(d[0] in L_['body'] for L_ in f.loops()) and is_opt(norm(R.at(d[0]).rvalue(d[2])), 0)]
+        seeding, why_seed = [], None
+        for d in upd:
+            if d in inits:
+                continue
+            v_ = norm(R.at(d[0]).rvalue(d[2]))
+            cands = [(d[0], v_)]
+            if v_[0] == 'v':
+                cands = [(b_, norm(R.at(b_).call(x_) if s_ == 'term' else R.at(b_).rvalue(x_))) for b_, s_, x_ in f.defs().get(v_[1], [])]
+            srcs = [c_[2][0] for _, c_ in cands if is_opt(c_, 1) and norm(c_[2][0])[0] == 'elem']
+            if not srcs or not all(emptied_hits(norm(x_)[1]) for x_ in srcs):
+                continue
+            hit = norm(srcs[0])
+            cur = ('fld', ('down', ('v', best), 'Some'), '0')
+            okd = True
+            for b_, c_ in cands:
+                rels_ = G.relations(f, R, b_)
+                keep = any((r_[0] == 'ge' and norm(r_[1]) == ('fld', hit, 'score') and S.self_field(r_[2], 'threshold')) or
+                           (r_[0] == 'le' and norm(r_[2]) == ('fld', hit, 'score') and S.self_field(r_[1], 'threshold')) for r_ in rels_)
+                sw_best = [r_[2] for r_ in rels_ if r_[0] == 'switch' and norm(r_[1]) == ('discr', ('v', best))]
+                sw_cmp = [(norm(r_[1]), r_[2]) for r_ in rels_ if r_[0] == 'switch' and 'partial_cmp' in X.canon(r_[1])]
+                cmp_ok = lambda want: any(m(('discr', ('call~', ('Option::unwrap', 'Option::expect'), (('call~', 'partial_cmp', (('fld', cur, 'score'), ('fld', hit, 'score'))),))), _deref_deep(e_)) is not None and c2_ == want for e_, c2_ in sw_cmp)
+                if not keep or not is_opt(c_, 1):
+                    okd, why_seed = False, 'a seeding assignment is not under hit.score >= self.threshold'
+                elif norm(c_[2][0]) == hit and sw_best == [('eq', 0)]:
+                    pass                                    # no best yet: the first hit that reaches the threshold
+                elif norm(c_[2][0]) == hit and sw_best == [('eq', 1)] and cmp_ok(('in', [255, 0])):
+                    pass                                    # current <= hit: the later of equal hits wins, as max_by does
+                elif norm(c_[2][0]) == cur and sw_best == [('eq', 1)] and cmp_ok(('eq', 1)):
+                    pass                                    # current > hit: kept
+                else:
+                    okd, why_seed = False, f'seeding assignment {X.show(c_, 80)} is not one of: first hit, later hit not below the current one, current one above the hit'
+            if okd and len(cands) >= 3:
+                seeding.append(d)
+        if len(inits) == 1 and len(seeding) == 1:
+            ok_seed = True
+            upd = [d for d in upd if d not in inits and d not in seeding]
     if ok_seed:
         ctx.ok('R3.3', f, 'best seeded from take(self.hits) filtered by hit.score >= self.threshold')
     else:
